@@ -1,8 +1,10 @@
 /-
 What survives at a positive precision (`eps = sg_precision_workamount > 0`): every rate computed by
-`MaxMin::maxmin_solve` is in [0, bound] — provided no variable *without* bound can pass the test
-`double_equals(min_bound, bound_·penalty, eps)` (hypothesis `hnb`; with the fix of props/C15/proposed_fix.diff the
-hypothesis is not needed).  The capacity clause does NOT survive (C15.maxmin_feasible_eps_counterexample).
+`MaxMin::maxmin_solve` is in [0, bound].  The bound round tests
+`var.bound_ > 0 && double_equals(min_bound, bound_·penalty, eps)`: only a variable that HAS a bound can be set to its bound
+(before the fix of `maxmin-precision-bound-test-unbounded-variable` the guard was missing and the statement needed the
+hypothesis `hnb`: `eps ≤ -(bound_·penalty)` for the variables with `bound_ ≤ 0`).
+The capacity clause does NOT survive (C15.maxmin_feasible_eps_counterexample).
 Invariant `PInv`: the constraints of the light table are active with remaining_ > 0 and usage_ > 0 (so min_usage > 0),
 every rate is in range.
 -/
@@ -82,7 +84,6 @@ theorem fixVar_P (S : Sys) (hwf : WF S) (eps : Rat) (h0 : 0 ≤ eps) (st : St) (
     · simp only [upd, h, if_false]; exact hP.vr c hc e he
 
 theorem fixLoop_P (S : Sys) (hwf : WF S) (eps : Rat) (h0 : 0 ≤ eps)
-    (hnb : ∀ v, 0 < (S.var v).penalty → (S.var v).bound ≤ 0 → eps ≤ -((S.var v).bound * (S.var v).penalty))
     (mb mu : Rat) (hmu : 0 ≤ mu) (sv : List Nat) (hsv : ∀ v ∈ sv, 0 < (S.var v).penalty)
     (hmb1 : mb < 0 → ∀ v ∈ sv, 0 < (S.var v).bound → mu ≤ (S.var v).bound * (S.var v).penalty)
     (hmb2 : ¬ mb < 0 → 0 < mb) :
@@ -99,22 +100,13 @@ theorem fixLoop_P (S : Sys) (hwf : WF S) (eps : Rat) (h0 : 0 ≤ eps)
       apply fixVar_P S hwf eps h0 st v _ hP (div_nonneg hmu (le_of_lt hpv))
       intro hb
       rw [div_le_iff₀ hpv]; exact hmb1 hmb v (by simp) hb
-    · by_cases heq : dblEq mb ((S.var v).bound * (S.var v).penalty) eps = true
-      · rw [fixLoop_eq S eps mb mu st v rest hmb heq]
-        have hb : 0 < (S.var v).bound := by
-          by_contra hnb0
-          have hb0 : (S.var v).bound ≤ 0 := not_lt.mp hnb0
-          have h1 := hnb v hpv hb0
-          have h2 : (S.var v).bound * (S.var v).penalty ≤ 0 := mul_nonpos_of_nonpos_of_nonneg hb0 (le_of_lt hpv)
-          have h3 := hmb2 hmb
-          unfold dblEq at heq
-          simp only [Bool.or_eq_true, decide_eq_true_eq] at heq
-          rcases heq with h | h
-          · linarith [h.1]
-          · linarith
+    · by_cases hc : 0 < (S.var v).bound ∧ dblEq mb ((S.var v).bound * (S.var v).penalty) eps = true
+      · rw [fixLoop_eq S eps mb mu st v rest hmb hc]
+        -- `var.bound_ > 0 &&` in front of the `double_equals`: only a variable that has a bound is set to its bound
+        have hb : 0 < (S.var v).bound := hc.1
         apply ih'
         exact fixVar_P S hwf eps h0 st v _ hP (le_of_lt hb) (fun _ => le_refl _)
-      · rw [fixLoop_skip S eps mb mu st v rest hmb heq]
+      · rw [fixLoop_skip S eps mb mu st v rest hmb hc]
         exact ih' st hP
 
 theorem reselect_P (S : Sys) (st : St) (hP : PInv S st) :
@@ -158,7 +150,6 @@ theorem rp_satVar (S : Sys) (hwf : WF S) (st : St) (hP : PInv S st)
       rw [h] at hc; simp at hc
 
 theorem round_P (S : Sys) (hwf : WF S) (eps : Rat) (h0 : 0 ≤ eps)
-    (hnb : ∀ v, 0 < (S.var v).penalty → (S.var v).bound ≤ 0 → eps ≤ -((S.var v).bound * (S.var v).penalty))
     (st : St) (sv : List Nat) (h : RP S st sv) :
     RP S (round S eps st sv) (satVarUpdate S (round S eps st sv) []) := by
   unfold round
@@ -172,15 +163,14 @@ theorem round_P (S : Sys) (hwf : WF S) (eps : Rat) (h0 : 0 ≤ eps)
         · exact hm
       rw [← hsv]
       have hmb := minBound_spec S st.minUsage sv h.sv_pen
-      apply fixLoop_P S hwf eps h0 hnb _ _ (le_of_lt hm) sv h.sv_pen _ (fun hn => (hmb.2 hn).1) st h.p
+      apply fixLoop_P S hwf eps h0 _ _ (le_of_lt hm) sv h.sv_pen _ (fun hn => (hmb.2 hn).1) st h.p
       intro hneg u hu hb
       by_contra hlt
       exact hmb.1 hneg u hu ⟨hb, by linarith⟩
   have hr := reselect_P S _ hfix
   exact rp_satVar S hwf _ hr.1 hr.2
 
-theorem loop_P (S : Sys) (hwf : WF S) (eps : Rat) (h0 : 0 ≤ eps)
-    (hnb : ∀ v, 0 < (S.var v).penalty → (S.var v).bound ≤ 0 → eps ≤ -((S.var v).bound * (S.var v).penalty)) :
+theorem loop_P (S : Sys) (hwf : WF S) (eps : Rat) (h0 : 0 ≤ eps) :
     ∀ (fuel : Nat) (st : St) (sv : List Nat) (st' : St), RP S st sv → loop S eps fuel st sv = some st' → PInv S st' := by
   intro fuel
   induction fuel with
@@ -188,7 +178,7 @@ theorem loop_P (S : Sys) (hwf : WF S) (eps : Rat) (h0 : 0 ≤ eps)
   | succ n ih =>
     intro st sv st' hR h
     rw [loop] at h
-    have hr := round_P S hwf eps h0 hnb st sv hR
+    have hr := round_P S hwf eps h0 st sv hR
     split at h
     · simp at h; subst h; exact hr.p
     · exact ih _ _ st' hr h
@@ -218,10 +208,8 @@ theorem initAll_eps (S : Sys) (hwf : WF S) (eps : Rat) (h0 : 0 ≤ eps) (h1 : ep
   simp only [e1, e2]
 
 /-- **rates are in [0, bound] at every precision `0 ≤ eps < 1`**, for every well-formed system (SHARED, FATPIPE, variable
-bounds) in which a variable without bound cannot pass the `double_equals` test of the bound round (`hnb`; for the API's
-`bound_ = -1`: `eps ≤ penalty`). -/
+bounds). -/
 theorem maxmin_var_bounds_eps_wf (S : Sys) (hwf : WF S) (eps : Rat) (h0 : 0 ≤ eps) (h1 : eps < 1)
-    (hnb : ∀ v, 0 < (S.var v).penalty → (S.var v).bound ≤ 0 → eps ≤ -((S.var v).bound * (S.var v).penalty))
     (val0 : Nat → Rat) (fuel : Nat) (st : St) (h : maxminSolve S eps fuel val0 = some st) :
     ∀ c ∈ S.active, ∀ e ∈ (S.cnst c).elems,
       0 ≤ st.value e.1 ∧ (0 < (S.var e.1).bound → st.value e.1 ≤ (S.var e.1).bound) := by
@@ -233,6 +221,6 @@ theorem maxmin_var_bounds_eps_wf (S : Sys) (hwf : WF S) (eps : Rat) (h0 : 0 ≤ 
     intro c hc e he
     rw [hi.1.g.val0 c hc e he (by rw [hi.2.2])]
     exact ⟨le_refl 0, fun hb => le_of_lt hb⟩
-  exact (loop_P S hwf eps h0 hnb fuel _ _ st (rp_satVar S hwf _ hP0 hi.1.sel) h).vr
+  exact (loop_P S hwf eps h0 fuel _ _ st (rp_satVar S hwf _ hP0 hi.1.sel) h).vr
 
 end SgVerif.Lmm
